@@ -76,6 +76,10 @@ pub struct GenCfg {
     /// a name that both branches of an `.if` on a constant define, used outside of the `.if`
     #[serde(default)]
     pub cond_defs: bool,
+    /// the forward reference to a shadowing definition sits right in front of the zero page boundary (where the size of the
+    /// instruction decides on which side the definition ends up)
+    #[serde(default)]
+    pub straddle_shadow: bool,
 }
 
 impl Default for GenCfg {
@@ -108,6 +112,7 @@ impl GenCfg {
             block_labels: true,
             var_shadow: true,
             cond_defs: false,
+            straddle_shadow: false,
         }
     }
     pub fn full() -> GenCfg {
@@ -1069,6 +1074,7 @@ pub fn build(entropy: &[u32], cfg: &GenCfg) -> Built {
         scope_names: vec![BTreeSet::new()],
     };
     let mut main: Vec<Stmt> = vec![];
+    let mut shadow_first = false;
     b.budget = 3 + b.e.below(cfg.max_stmts.max(4) - 3);
 
     // 1. segments
@@ -1104,9 +1110,19 @@ pub fn build(entropy: &[u32], cfg: &GenCfg) -> Built {
         b.cur_seg_relocated = b.relocated_segs.contains("sa");
     } else if cfg.zp_segment && b.e.chance(1, 4) {
         // default segment moved into the zero page / page one boundary
-        let base = b.e.range(0xa0, 0xf8);
+        let mut base = b.e.range(0xa0, 0xf8);
+        // (decided by something else than the entropy stream, which the programs of the stored cases depend on)
+        let h = entropy.iter().fold(0x811c_9dc5u32, |a, v| (a ^ v).wrapping_mul(0x0100_0193));
+        if cfg.shadow_forward_ref && cfg.straddle_shadow && h % 3 != 0 {
+            base = 0xf4 + ((h >> 8) % 10) as i64;
+            shadow_first = true;
+        }
         main.push(Stmt::SetPc(Expr::hex(base)));
         b.stats.zp_segment = true;
+        if shadow_first {
+            shadow_template(&mut b, &mut main, true);
+            b.stats.features.insert("shadowing_definition_at_the_zero_page_boundary".into());
+        }
     }
 
     // 2. pure constants (numbers and strings)
@@ -1151,37 +1167,8 @@ pub fn build(entropy: &[u32], cfg: &GenCfg) -> Built {
     let body = b.block(0, n, true);
     main.extend(body);
 
-    if cfg.shadow_forward_ref && b.e.chance(3, 4) {
-        // template for the recorded finding: a use that precedes an inner definition shadowing an outer one
-        let name = b.fresh("l");
-        let outer_is_const = b.e.chance(1, 3);
-        let mut inner: Vec<Stmt> = vec![];
-        for _ in 0..b.e.below(3) {
-            inner.push(b.instr_simple());
-        }
-        let path = vec![name.clone()];
-        inner.push(match b.e.below(4) {
-            0 => Stmt::Instr { mn: "bne".into(), form: Form::Plain, operand: Some(Expr::path(&path)) },
-            1 => Stmt::Instr { mn: "jmp".into(), form: Form::Plain, operand: Some(Expr::path(&path)) },
-            2 => Stmt::Data { size: DataSize::Word, vals: vec![Expr::path(&path)] },
-            _ => Stmt::Instr { mn: "lda".into(), form: Form::Plain, operand: Some(Expr::path(&path)) },
-        });
-        for _ in 0..b.e.below(3) {
-            inner.push(b.instr_simple());
-        }
-        inner.push(Stmt::Label { name: name.clone(), block: None });
-        inner.push(b.instr_simple());
-        if outer_is_const {
-            main.push(Stmt::Const { name: name.clone(), e: Expr::hex(0x0300 + b.e.below(200) as i64) });
-            main.push(Stmt::Braces(inner));
-        } else if b.e.chance(1, 2) {
-            main.push(Stmt::Label { name: name.clone(), block: Some(inner) });
-        } else {
-            main.push(Stmt::Label { name: name.clone(), block: None });
-            main.push(b.instr_simple());
-            main.push(Stmt::Braces(inner));
-        }
-        b.stats.features.insert("forward_ref_to_shadowing_definition".into());
+    if cfg.shadow_forward_ref && !shadow_first && b.e.chance(3, 4) {
+        shadow_template(&mut b, &mut main, false);
     }
 
     if cfg.vars && cfg.var_shadow && b.e.chance(1, 8) {
@@ -1297,6 +1284,40 @@ pub fn build(entropy: &[u32], cfg: &GenCfg) -> Built {
     }
     stats.features.extend(b.stats.features.clone());
     Built { prog, stats }
+}
+
+/// A use that precedes an inner definition that shadows an outer one (at the zero page boundary: a zero-page-or-absolute
+/// instruction whose size decides whether the inner label ends up below $100)
+fn shadow_template(b: &mut Builder, main: &mut Vec<Stmt>, at_boundary: bool) {
+    let name = b.fresh("l");
+    let outer_is_const = at_boundary || b.e.chance(1, 3);
+    let mut inner: Vec<Stmt> = vec![];
+    for _ in 0..b.e.below(3) {
+        inner.push(b.instr_simple());
+    }
+    let path = vec![name.clone()];
+    inner.push(match if at_boundary { 3 } else { b.e.below(4) } {
+        0 => Stmt::Instr { mn: "bne".into(), form: Form::Plain, operand: Some(Expr::path(&path)) },
+        1 => Stmt::Instr { mn: "jmp".into(), form: Form::Plain, operand: Some(Expr::path(&path)) },
+        2 => Stmt::Data { size: DataSize::Word, vals: vec![Expr::path(&path)] },
+        _ => Stmt::Instr { mn: "lda".into(), form: Form::Plain, operand: Some(Expr::path(&path)) },
+    });
+    for _ in 0..b.e.below(3) {
+        inner.push(b.instr_simple());
+    }
+    inner.push(Stmt::Label { name: name.clone(), block: None });
+    inner.push(b.instr_simple());
+    if outer_is_const {
+        main.push(Stmt::Const { name: name.clone(), e: Expr::hex(0x0300 + b.e.below(200) as i64) });
+        main.push(Stmt::Braces(inner));
+    } else if b.e.chance(1, 2) {
+        main.push(Stmt::Label { name: name.clone(), block: Some(inner) });
+    } else {
+        main.push(Stmt::Label { name: name.clone(), block: None });
+        main.push(b.instr_simple());
+        main.push(Stmt::Braces(inner));
+    }
+    b.stats.features.insert("forward_ref_to_shadowing_definition".into());
 }
 
 /// References to `-` / `+` inside blocks that have them (braces, labelled blocks, loop and macro bodies; the blocks of
